@@ -81,6 +81,16 @@ def run(ctx, F, cg):
         b = Body(F.mir(r["path"]), r)
         ctx.saw_fn(r["path"]); ctx.saw_calls(len(b.calls()))
         res = [c for c in b.calls() if c.path in reservers]
+        if not res:
+            # the reservation may sit in a helper of the persistence manager that this entry point delegates to
+            for hc in b.calls():
+                if hc.path.startswith(PM) and hc.path in F.fns and hc.path != r["path"]:
+                    hb_ = Body(F.mir(hc.path), F.fns[hc.path])
+                    if any(c.path in reservers for c in hb_.calls()):
+                        r, b = F.fns[hc.path], hb_
+                        res = [c for c in b.calls() if c.path in reservers]
+                        ctx.saw_fn(hc.path)
+                        break
         sep_check = [c for c in b.calls() if c.path == TM + "check_quota"]
         sep_inc = [c for c in b.calls() if c.path == TM + "increment_usage"]
         if not res:
@@ -132,6 +142,52 @@ def run(ctx, F, cg):
             ctx.ok("R18b", nm, "reservation dominates %d write call(s), is propagated with `?`, and a failed write passes decrement_usage" % len(writes))
         else:
             ctx.violation("R18b", nm + "|reserve-release", where(r, k.line), "reservation protocol broken: error propagated=%s, dominates writes=%s, released on failure=%s" % (prop, dom, released))
+    # ---- R18d: a unit is given back only if it was taken ------------------------------------------------------------
+    ctx.rule("R18d", "a release follows a successful reservation only: wherever a function of the persistence layer both reserves and releases, the Result whose failure triggers decrement_usage does not derive from the reservation's own Result (a refused creation never took a unit, so giving one back lowers the counter below what is stored and lets the next creation through)")
+    n_rr = 0
+    for p_, r_ in sorted(F.fns.items()):
+        if not p_.startswith("samyama::persistence::") or "::tests::" in p_ or "{closure" in p_:
+            continue
+        if not any(c in reservers for c in r_["calls"]) or TM + "decrement_usage" not in r_["calls"]:
+            continue
+        bb_ = Body(F.mir(p_), r_)
+        n_rr += 1
+        short = p_.replace(PM, "").replace("samyama::persistence::", "")
+        resv = [c for c in bb_.calls() if c.path in reservers]
+        rels = [c for c in bb_.calls() if c.path == TM + "decrement_usage"]
+        bad = None
+        COMB = ("as_ref", "map_err", "and_then", "or_else", "map", "branch")
+        for rc in rels:
+            for i in sorted(bb_.live_blocks()):
+                t = bb_.blocks[i]["t"]
+                if t[0] != "switch" or t[1][0] == "k" or not bb_.dominates(i, rc.bb):
+                    continue
+                l = t[1][1][0]
+                fail_t = None
+                src_local = None
+                ds = bb_.defs().get(l, [])
+                if len(ds) == 1 and ds[0][0] == "stmt" and ds[0][4][0] == "discr":
+                    src_local = ds[0][4][1][0]
+                    ty = bb_.local_ty(src_local)
+                    if ty.startswith("std::result::Result<") or ty.startswith("std::ops::ControlFlow<"):
+                        one = [tgt for v, tgt in t[2] if v == "1"]
+                        fail_t = one[0] if one else t[3]
+                elif len(ds) == 1 and ds[0][0] == "call" and ds[0][2].path.rsplit("::", 1)[-1] in ("is_err", "is_ok") and ds[0][2].args and ds[0][2].args[0][0] != "k":
+                    src_local = ds[0][2].args[0][1][0]
+                    zero = [tgt for v, tgt in t[2] if v == "0"]
+                    fail_t = t[3] if ds[0][2].path.endswith("is_err") else (zero[0] if zero else None)
+                if fail_t is None or src_local is None:
+                    continue
+                if rc.bb not in bb_.reachable(fail_t, avoid={i}):
+                    continue        # the release is not on the failure side of this test
+                og = bb_.origins(src_local, through_calls=lambda cc: list(range(len(cc.args))) if cc.path.rsplit("::", 1)[-1] in COMB else None)
+                if any(o[0] == "call" and o[1].path in reservers for o in og):
+                    bad = (rc, i)
+        if bad:
+            ctx.violation("R18d", short + "|release-on-refused-reservation", where(r_, bad[0].line), "%s gives a unit back (decrement_usage) on the failure of a value that includes the reservation's own result: a creation refused by the quota lowers the usage counter, which then falls below the number of stored entities" % short)
+        else:
+            ctx.ok("R18d", short, "the release depends only on the outcome of the write, not of the reservation")
+    ctx.floor("R18d", "functions that reserve and release", n_rr, 1)
     # ---- R18c -------------------------------------------------------------------------------------------
     rec = F.fn(PM + "recover")
     b = Body(F.mir(rec["path"]), rec)
